@@ -4,13 +4,20 @@
 //! stub of the vault factory (answers `Vault{asset_info}` with the vault's address; the real factory
 //! is C19's subject, and going through it would make the factory the vault's owner).
 //! Observations are public queries + balances (+ LOAN_COUNTER raw).
+//!
+//! Entry points a cw20-LP vault has to refuse (the model answers `none`):
+//!   wdirect <who> <sel> <amt>   ExecuteMsg::Withdraw {} sent directly; attached coins by `sel`:
+//!                               0 = one coin of the vault asset's denom (held only when the asset is
+//!                               native), 1 = one coin "ujunk", 2 = none, 3 = two coins (asset denom + ujunk)
+//!   wfake <who> <amt>           cw20 `Send` of the vault ASSET token (cw20 asset) carrying the Withdraw hook
+//!   xafter <who> <old> <loan>   ExecuteMsg::Callback(AfterTrade{old_balance, loan_amount}) by an ordinary account
 use crate::common::*;
 use cosmwasm_std::{
-    coins, to_json_binary, Addr, BankMsg, Binary, CosmosMsg, Decimal, Empty, Response, StdError, Uint128,
+    coin, coins, to_json_binary, Addr, BankMsg, Binary, Coin, CosmosMsg, Decimal, Empty, Response, StdError, Uint128,
     Uint512, WasmMsg,
 };
 use cw20::{Cw20Coin, Cw20ExecuteMsg, Cw20QueryMsg};
-use cw_multi_test::{App, AppBuilder, BankKeeper, ContractWrapper, Executor};
+use cw_multi_test::{App, AppBuilder, AppResponse, BankKeeper, ContractWrapper, Executor};
 use serde::{Deserialize, Serialize};
 use white_whale_std::fee::{Fee, VaultFee};
 use white_whale_std::pool_network::asset::{Asset, AssetInfo};
@@ -19,6 +26,8 @@ use white_whale_std::vault_network::vault_factory as fmsg;
 use white_whale_std::vault_network::vault_router as rmsg;
 
 const DENOM: &str = "uasset";
+/// a denom unrelated to the vault, held by accounts 0..3 (attached to foreign entry points)
+const JUNK: &str = "ujunk";
 const E18: u128 = 1_000_000_000_000_000_000;
 const ACCTS: [&str; 6] = ["alice", "bob", "carol", "adv", "collector", "router"];
 const ROUTER: usize = 5;
@@ -406,6 +415,10 @@ impl World {
             )
             .unwrap();
         accts[ROUTER] = router.clone();
+        for a in accts[..4].iter() {
+            app.sudo(cw_multi_test::SudoMsg::Bank(cw_multi_test::BankSudo::Mint { to_address: a.to_string(), amount: coins(1u128 << 100, JUNK) }))
+                .unwrap();
+        }
         let mut asset_token = None;
         let asset_info = if kind == 0 {
             for (i, a) in accts.iter().enumerate() {
@@ -1001,6 +1014,55 @@ impl VaultEngine {
                 };
                 ok = w.call_router(a[0] as usize, &msg);
             }
+            "wdirect" => {
+                let a = nums(1).ok_or(())?;
+                if a.len() != 3 || a[0] > 3 || a[1] > 3 {
+                    return Err(());
+                }
+                let who = w.accts[a[0] as usize].clone();
+                let funds: Vec<Coin> = match a[1] {
+                    0 => coins(a[2], DENOM),
+                    1 => coins(a[2], JUNK),
+                    2 => vec![],
+                    _ => vec![coin(a[2], DENOM), coin(a[2], JUNK)],
+                };
+                let r = guarded(|| w.app.execute_contract(who.clone(), w.vault.clone(), &vmsg::ExecuteMsg::Withdraw {}, &funds));
+                ok = matches!(r, Outcome::Ok(_));
+                mon.stat(&format!("wdirect_coins_{}", ["asset_denom", "junk", "none", "asset_denom+junk"][a[1] as usize]));
+                if (a[1] == 1 || (a[1] == 0 && w.kind == 0 && a[2] <= before.ab[a[0] as usize])) && a[2] > 0 && a[2] <= before.lpv {
+                    mon.stat("wdirect_one_held_coin_amount_within_locked_lp");
+                }
+            }
+            "wfake" => {
+                let a = nums(1).ok_or(())?;
+                if a.len() != 2 || a[0] > 3 {
+                    return Err(());
+                }
+                let who = w.accts[a[0] as usize].clone();
+                let r = match w.asset_token.clone() {
+                    Some(t) => guarded(|| {
+                        w.app.execute_contract(
+                            who.clone(),
+                            t,
+                            &Cw20ExecuteMsg::Send { contract: w.vault.to_string(), amount: a[1].into(), msg: to_json_binary(&vmsg::Cw20HookMsg::Withdraw {}).unwrap() },
+                            &[],
+                        )
+                    }),
+                    None => guarded(|| Err::<AppResponse, _>("a native asset has no Send")),
+                };
+                ok = matches!(r, Outcome::Ok(_));
+                mon.stat(if w.kind == 0 { "wfake_native_asset" } else { "wfake_cw20_asset" });
+            }
+            "xafter" => {
+                let a = nums(1).ok_or(())?;
+                if a.len() != 3 || a[0] > 3 {
+                    return Err(());
+                }
+                let who = w.accts[a[0] as usize].clone();
+                let msg = vmsg::ExecuteMsg::Callback(vmsg::CallbackMsg::AfterTrade { old_balance: a[1].into(), loan_amount: a[2].into() });
+                let r = guarded(|| w.app.execute_contract(who.clone(), w.vault.clone(), &msg, &[]));
+                ok = matches!(r, Outcome::Ok(_));
+            }
             _ => return Err(()),
         }
         Ok(ok)
@@ -1070,6 +1132,13 @@ impl VaultEngine {
                 if before.ab[ROUTER] > 0 {
                     mon.stat("router_guard_probe_with_funds");
                 }
+            }
+            // nothing but the LP token's `Send` withdraws; the loan-settling callback is the vault's own
+            "wdirect" | "wfake" => {
+                mon.check("C05", "withdraw_only_through_lp_token", !ok, || ctx("Withdraw accepted without the LP token's Send"));
+            }
+            "xafter" => {
+                mon.check("C06", "vault_callback_guarded", !ok, || ctx("Callback(AfterTrade) accepted from a stranger"));
             }
             "rloan2" => mon.check("C06", "router_multi_asset_refused", !ok, || ctx("router accepted a loan of two assets")),
             "rloan0" => mon.check("C06", "router_zero_assets_noop", ok && before == after, || ctx("router loan of zero assets did something")),
@@ -1347,6 +1416,40 @@ impl Engine for VaultEngine {
                 _ => rng.u128() % 3000 + 1,
             };
             return Some(format!("rfund {who} {n}"));
+        }
+        if r >= 97 {
+            // entry points the vault must refuse: direct Withdraw {} with 0 / 1 / 2 coins, the Withdraw hook
+            // from the asset token, the loan-settling callback from outside
+            let amt = match rng.below(8) {
+                0 => 1,
+                1 => 999,
+                2 => 1000,
+                3 | 4 => o.lb[who].max(1),
+                5 => (o.sup / (1 + rng.below(8) as u128)).max(1),
+                6 => small(rng, o.ab[who]).max(1),
+                _ => rng.u128() % 100_000 + 1,
+            };
+            return Some(match rng.below(6) {
+                0..=2 => {
+                    let sel = match rng.below(10) {
+                        0..=3 => 0,
+                        4..=7 => 1,
+                        8 => 2,
+                        _ => 3,
+                    };
+                    format!("wdirect {who} {sel} {amt}")
+                }
+                3 => format!("wfake {who} {}", if rng.chance(1, 6) { 0 } else { amt }),
+                _ => {
+                    let old = match rng.below(4) {
+                        0 => 0,
+                        1 => o.bal,
+                        2 => o.bal.saturating_sub(small(rng, o.bal)),
+                        _ => o.bal.saturating_add(1),
+                    };
+                    format!("xafter {who} {old} {}", if rng.chance(1, 4) { 0 } else { small(rng, o.bal) })
+                }
+            });
         }
         if r < 64 {
             // router calls that must be refused (or do nothing); probe the guards while the router holds funds
